@@ -1,7 +1,7 @@
 import HC.Conn.Shell
 import HC.Extracted.Runtime
 import HC.Proto.H11
-import HC.Props.C09
+import HC.Proto.H2SendEvents
 /-!
 # C16 — protocol behaviour does not depend on the worker class
 
@@ -133,12 +133,12 @@ theorem ws_stream_closed_idempotent (s : Ws.S) :
   by_cases h : s.closed <;> simp [h]
 
 /-- `H2Protocol.handle(Closed)` twice = once: streams are already popped, buffers already closed, `has_data` already set
-    (proved over the HTTP/2 send model in `HC/Props/C09.lean`; restated here because it is what makes trio's re-entrant
+    (proved over the HTTP/2 send model in `HC/Proto/H2SendEvents.lean`; restated here because it is what makes trio's re-entrant
     `protocol.handle(Closed())` unobservable on HTTP/2) -/
 theorem h2_closed_idempotent (s s1 s2 : HC.Proto.H2Send.St)
     (h1 : HC.Proto.H2Send.step s .closed = some s1) (h2 : HC.Proto.H2Send.step s1 .closed = some s2) :
     s2.closed = s1.closed ∧ s2.hasData = s1.hasData ∧ s2.connWin = s1.connWin ∧ s2.task = s1.task ∧ ∀ i, s2.str i = s1.str i :=
-  HC.Props.C09.closed_idempotent s s1 s2 h1 h2
+  HC.Proto.H2SendEvents.closed_idempotent s s1 s2 h1 h2
 
 /-! ## replace-on-clear is unobservable -/
 
@@ -275,7 +275,7 @@ example : (Ev.runOps false {} [.wait 1, .clear, .set]).view ≠ (Ev.runOps true 
 /-! ### the glue follows the discipline (HTTP/2 send path: `has_data`, `StreamBuffer._paused`, `_is_empty`) -/
 
 /-- Every op of the HTTP/2 send model that clears an event is taken by the event's only possible waiter while it is not
-    waiting (`HC.Props.C09.clear_has_no_foreign_waiter`): `_is_empty.clear()` in `push` / in `drain` of a completed buffer by the
+    waiting (`HC.Proto.H2SendEvents.clear_has_no_foreign_waiter`): `_is_empty.clear()` in `push` / in `drain` of a completed buffer by the
     stream's single sender; `_paused.clear()` by the sender after its own `wait()`; `has_data.clear()` by the send task after its
     own `wait()`.  With `event_replace_eq_clear` this is why trio's replace-on-clear wrapper is indistinguishable there.
     (h11's `can_read` is cleared and awaited by the reader alone: `await self.can_read.clear(); await self.can_read.wait()`.) -/
@@ -284,6 +284,6 @@ theorem h2_clear_discipline (s s' : HC.Proto.H2Send.St) (o : HC.Proto.H2Send.Op)
     (∀ i, o = .end_ i → (s.str i).pusher = .idle) ∧
     (∀ i, o = .pushWake i → (s.str i).pusher = .inPush ∧ (s'.str i).pusher = .idle) ∧
     (o = .wake → s.task = .parked ∧ s'.task = .running) :=
-  HC.Props.C09.clear_has_no_foreign_waiter s s' o h
+  HC.Proto.H2SendEvents.clear_has_no_foreign_waiter s s' o h
 
 end HC.Props.C16
